@@ -23,8 +23,8 @@ from mc.props import _c10_setup as S
 
 ID = "C10"
 RULE = ("data per (type, outcome count, system): EVERY count table with N shots per schedule for the stated N (index = mixed radix over "
-        "the compositions of N, empty outcomes included); for types with >= 12 schedules the one-shot tables x(s)=(t[s%g]+c*(s//g))%outcomes "
-        "(g = number of tester POVMs) for all t, c in the stated range; exact Born distributions (reference model) of every alphabet object "
+        "the compositions of N, empty outcomes included); where that is too large the structured one-shot tables x(s)=(t[s%g]+c*(s//g))%outcomes "
+        "(g = min(4, number of tester POVMs), for POVM tomography g = d) for all t in range(tmax)^g, c in range(cmax); exact Born distributions (reference model) of every alphabet object "
         "(interior, boundary, pure); 8 fixed improper vectors of magnitude <= 10 (zero, unnormalised, negative entries, scaled by 10; given to the projected linear estimator and the squared-error losses); "
         "x flag x projection order x estimator configuration; non-trivial = the reference linear estimate is not physical "
         "(projection moves it) or the data are exact data of a boundary object; distinct = distinct (configuration, estimator, data)")
@@ -86,9 +86,12 @@ def chunks_for(kind, sysname, m, spec, size):
     if spec[0] == "tab":
         return [{"t": "tab", "N": spec[1], "lo": lo, "hi": hi} for lo, hi in split(S.ntab(ns, no, spec[1]), size)]
     if spec[0] == "st":
-        return [{"t": "st", "tmax": spec[1], "cmax": spec[2], "lo": lo, "hi": hi} for lo, hi in split(S.nstruct(ns, no, g, spec[1], spec[2]), size)]
+        total = S.nstruct(ns, no, g, spec[1], spec[2])
+        if len(spec) > 3:
+            total = min(total, spec[3])          # stated cap: the first spec[3] tables of the enumeration
+        return [{"t": "st", "tmax": spec[1], "cmax": spec[2], "lo": lo, "hi": hi} for lo, hi in split(total, size)]
     if spec[0] == "exact":
-        return [{"t": "exact"}]
+        return [{"t": "exact", "names": list(spec[1])}] if len(spec) > 1 else [{"t": "exact"}]
     return [{"t": "far"}]
 
 
@@ -115,9 +118,9 @@ def plin_plan(tier):
               ("gate", "Q1", None, [("tab", 1)], (1e-8,), 64),
               ("povm", "Q3", 2, [("tab", 1)], (1e-8,), 40),
               ("mprocess", "Q3", 2, [("st", 3, 2)], (None,), 9),
-              ("state", "Q2", None, [("exact",), ("far",), ("st", 4, 1)], (None,), 16),
+              ("state", "Q2", None, [("exact",), ("far",), ("st", 4, 3)], (None,), 32),
               ("povm", "Q2", 2, [("exact",), ("far",), ("st", 2, 2)], (None,), 16),
-              ("gate", "Q2", None, [("exact",), ("far",), ("st", 2, 2)], (None,), 4)]
+              ("gate", "Q2", None, [("exact",), ("far",), ("st", 2, 2)], (None,), 2)]
     return q
 
 
@@ -192,9 +195,9 @@ def lossmin_plan(tier):
               ("povm", "Q3", 2, [("far",), ("tab", 1)], "fast", 32),
               ("gate", "Q3", None, [("far",), ("st", 2, 2)], "fast", 2),
               ("mprocess", "Q3", 2, [("exact",), ("st", 2, 1)], "light", 1),
-              ("state", "Q2", None, [("exact",), ("far",), ("st", 2, 1)], "fast", 4),
-              ("povm", "Q2", 2, [("exact",), ("st", 2, 1)], "fast", 2),
-              ("gate", "Q2", None, [("exact",), ("st", 2, 1)], "light", 1)]
+              ("state", "Q2", None, [("exact",), ("far",), ("st", 2, 2)], "fast", 8),
+              ("povm", "Q2", 2, [("exact",), ("st", 2, 2)], "pair", 4),
+              ("gate", "Q2", None, [("exact", ("unitary_generic", "depolarizing")), ("st", 2, 1, 2)], "pair", 1)]
     return q
 
 
